@@ -83,7 +83,55 @@ def run(ctx):
     res.append(rule_infer(facts))
     res.append(rule_hdr(facts))
     res.append(rule_sampleeof(facts))
+    res.append(rule_unseen(facts))
     return res
+
+
+def rule_unseen(facts):
+    """A column without any value in the sample (sample = header only, or the column is NULL throughout) carries no evidence for a
+    narrow type; whatever is announced has to accept every value that may follow. Only Utf8 does. Decided on
+    CandidateType::as_datatype: the arm of the variant that means "nothing seen" (discriminant 0, `Unknown`) builds DataType::utf8."""
+    from .mir import disc_switches
+    r = RuleResult("C17-UNSEEN", "a column with no value in the inference sample is announced as Utf8", floor=1)
+    rec = facts.fn("glaredb_ext_csv::schema::CandidateType::as_datatype")
+    adt = [a for a in facts.records("adt") if a.get("id", a.get("name", "")).endswith("schema::CandidateType")]
+    if rec is None:
+        r.missing_anchor("CandidateType::as_datatype")
+        return r
+    fn = Fn(rec)
+    r.functions.add(fn.id)
+    names = None
+    if adt:
+        vs = adt[0].get("variants") or []
+        names = [v.get("name") if isinstance(v, dict) else v for v in vs]
+    if not names or "Unknown" not in names:
+        r.missing_anchor("CandidateType has no variant named Unknown (the rule's slot for 'nothing seen')")
+        return r
+    idx = names.index("Unknown")
+    sw = disc_switches(fn)
+    if not sw:
+        r.missing_anchor("as_datatype: no discriminant switch")
+        return r
+    b, _pl, t = sw[0]
+    tgt = dict((v, bb) for v, bb in t[2]).get(idx, t[3])
+    made = []
+    seen, st = set(), [tgt]
+    while st:
+        x = st.pop()
+        if x in seen:
+            continue
+        seen.add(x)
+        for c in fn.calls():
+            if c.bb == x and c.name.startswith("glaredb_core::arrays::datatype::DataType::"):
+                made.append(c.name.rsplit("::", 1)[-1])
+        if not made:
+            st.extend(fn.succ[x])
+    ok = made[:1] == ["utf8"]
+    r.inst({"fn": fn.id, "unknown_discriminant": idx, "datatype_built": made[:1]}, ok)
+    if not ok:
+        r.violate(fn.id, "unseen-column-narrow-type", f"a column with no value in the sample is announced as {made[:1] or '?'}: the scan fails on the first value past the sample "
+                  "that this type does not accept (header-only sample: every column Boolean)", rec["file"], rec["line"])
+    return r
 
 
 def rule_sampleeof(facts):
@@ -412,7 +460,8 @@ CLAIM = {
             "reset rule on CsvReader::prepare: the csv_core end-of-input protocol, a necessary condition for returning the last record of "
             "any file lacking a trailing newline. Record contents/type inference are runtime values and are not decided. Plus the dual: the end-of-input signal (decode with constant empty input) is issued only behind a branch on the byte count a read returned, so a sample or buffer boundary is never treated as the end of the file. Plus: CSV fields become text only through the checked from_utf8 on decoded fields (no unchecked conversion, no validation of raw read chunks); ByteRecords resets a length only behind a comparison that reads it; every candidate-type transition of type inference goes to a type that accepts all values of the type it leaves."
             " Plus HDR: the empty field is valid for every candidate type, so header detection does not eat a first data row that has a NULL."
-            " Plus SAMPLEEOF: the inference sample decoders (schema and dialect) signal end of input when the sample is the whole file; EOFONLY follows the at-end flag through helper parameters and wrappers to the read-count comparison at the call site.",
+            " Plus SAMPLEEOF: the inference sample decoders (schema and dialect) signal end of input when the sample is the whole file; EOFONLY follows the at-end flag through helper parameters and wrappers to the read-count comparison at the call site."
+            " Plus UNSEEN: a column with no value in the sample is announced as Utf8.",
     "note": "trusted: rustc MIR and csv_core's documented contract (empty input = end of data; reader stays in End until reset)",
     "technique": "static analysis: MIR must-pass-through / API-protocol rule (rustc_private driver)",
 }
